@@ -65,7 +65,7 @@ package sqlite
 //@ ensures err != nil ==> result == nil
 
 //@ func (*SqliteStoreWorker).deleteCallbacks
-//@ props C16 C17 C05 C02 C20
+//@ props C16 C17 C05 C02 C20 C13
 //@ nopanic C13
 //@ ghostdb store
 //@ stmt stmt CALLBACK_DELETE_STATEMENT
@@ -186,7 +186,7 @@ package sqlite
 //@ ensures err != nil ==> result == nil
 
 //@ func (*SqliteStoreWorker).createTasks
-//@ props C16 C17 C05 C08 C02 C20 C07
+//@ props C16 C17 C05 C08 C02 C20 C07 C13
 //@ nopanic C13
 //@ ghostdb store
 //@ stmt stmt TASK_INSERT_ALL_STATEMENT
@@ -196,7 +196,7 @@ package sqlite
 //@ ensures err != nil ==> result == nil
 
 //@ func (*SqliteStoreWorker).completeTasks
-//@ props C16 C17 C05 C08 C02 C20
+//@ props C16 C17 C05 C08 C02 C20 C07
 //@ nopanic C13
 //@ ghostdb store
 //@ stmt stmt TASK_COMPLETE_BY_ROOT_ID_STATEMENT
